@@ -15,6 +15,7 @@ var commands = map[string]func([]string){
 	"stability": cmdStability,
 	"registry":  cmdRegistry,
 	"regreplay": cmdRegReplay,
+	"selectors": cmdSelectors,
 }
 
 func main() {
